@@ -411,3 +411,196 @@ def enclosing_loops(ctx, fn, node):
 def key_of(fn, what):
     """Construct key: qualified function + normalised construct text (never a line number)."""
     return f"{fn.short}::{what}"
+
+
+# ------------------------------------------------- T15 guarded reachability
+def fresh_queue_poll(ctx, fn, s):
+    """`q.process_queue()` on a JobQueue local that was constructed in this function and not
+    touched since cannot start anything: JobQueue.__init__ initialises _queued_jobs to an empty
+    literal and only JobQueue.submit inserts into it (both re-checked here on every run).
+    Returns the reason string, or None if the argument does not apply."""
+    if not s.calls_short(ctx.ix, "JobQueue.process_queue"):
+        return None
+    f = s.node.func
+    if not (isinstance(f, ast.Attribute) and isinstance(f.value, ast.Name)):
+        return None
+    q = f.value.id
+    nodes = ctx.nodes_of(fn, s.node)
+    if len(nodes) != 1:
+        return None
+    ud = ctx.rd(fn).unique_def(nodes[0], q)
+    if ud is None or not isinstance(ud[1], ast.Call):
+        return None
+    dnode, val = ud
+    cs = ctx.cg.site_of(fn, val)
+    if cs is None or not (cs.constructs or "").endswith(".JobQueue"):
+        return None
+    # (a) __init__ : self._queued_jobs = []   (b) only submit() inserts
+    jq = ctx.ix.find_class("JobQueue")
+    init = jq.methods.get("__init__")
+    ok_init = False
+    for n in ast.walk(init.node):
+        if isinstance(n, ast.Assign) and any(isinstance(t, ast.Attribute) and t.attr == "_queued_jobs" for t in n.targets):
+            ok_init = isinstance(n.value, ast.List) and not n.value.elts
+    if not ok_init:
+        return None
+    for f2, node, attr, t, kind in attr_stores(ctx, {"_queued_jobs"}):
+        if kind in ("mutate:append", "mutate:extend", "mutate:insert", "setitem") and f2.short != "JobQueue.submit":
+            return None
+        if kind == "store" and f2.short != "JobQueue.__init__":
+            return None
+    # (c) no use of q between its construction and this call
+    cfg = ctx.cfg(fn)
+    between = reachable_from(ctx, fn, dnode, ALL_KINDS, avoid=[nodes[0]])
+    for nid in between:
+        n = cfg.nodes[nid]
+        if n is nodes[0] or n is dnode:
+            continue
+        for a in cfg.own_ast(n):
+            if isinstance(a, (ast.FunctionDef, ast.AsyncFunctionDef, ast.ClassDef)):
+                continue
+            for sub in iter_own(a):
+                if isinstance(sub, ast.Name) and sub.id == q:
+                    # only nodes that can still reach the call matter
+                    if nodes[0].id in reachable_from(ctx, fn, n, ALL_KINDS):
+                        return None
+    return f"{q} is a JobQueue constructed in {fn.short} and untouched before process_queue(): its queued list is empty"
+
+
+def ungated_chain(ctx, entry_fn, effect, gate_accept, kinds=ALL_KINDS, infeasible=None, flag_fn=None, edge_infeasible=None):
+    """A call chain entry -> ... -> primitive `effect` on which no call site is guarded by a
+    condition accepted by gate_accept(form, pol); None if every chain crosses a gate.
+
+    infeasible(fn, site) discharges a whole site; edge_infeasible(fn, site, callee, flag)
+    discharges one dispatch target in the calling context `flag` (flag = some function on the
+    chain so far satisfied flag_fn). Returns list of (fn, call site) down to the primitive."""
+    memo = {}
+
+    def site_gated(fn, s):
+        nodes = ctx.nodes_of(fn, s.node, kinds)
+        if not nodes:
+            return True  # unreachable site
+        for n in nodes:
+            forms = guard_forms(ctx, fn, n, kinds)
+            if not any(gate_accept(f, p) for f, p in forms):
+                return False
+        return True
+
+    def visit(fn, stack, flag):
+        flag = flag or bool(flag_fn and flag_fn(fn))
+        key = (fn.qual, flag)
+        if key in memo:
+            return memo[key]
+        if key in stack:
+            return None
+        memo[key] = None
+        res = None
+        for s in ctx.cg.sites_in(fn):
+            if effect not in ctx.site_may(s):
+                continue
+            if site_gated(fn, s):
+                continue
+            if infeasible is not None and infeasible(fn, s):
+                continue
+            if effect in ctx.site_effects(s):
+                res = [(fn, s)]
+                break
+            for q in s.targets():
+                f2 = ctx.ix.functions.get(q)
+                if f2 is None:
+                    continue
+                if edge_infeasible is not None and edge_infeasible(fn, s, f2, flag):
+                    continue
+                sub = visit(f2, stack | {key}, flag)
+                if sub is not None:
+                    res = [(fn, s)] + sub
+                    break
+            if res:
+                break
+        memo[key] = res
+        return res
+
+    return visit(entry_fn, frozenset(), False)
+
+
+# --------------------------------------------- confinement of the HPC-level queue
+def hpc_queue_confined(ctx):
+    """AsyncHpcSubmitter objects (the only objects whose run() hands a batch to the scheduler)
+    are created only inside class HpcSubmitter/AsyncHpcSubmitter and enter only JobQueue objects
+    that are locals of HpcSubmitter methods, which never escape that class. Consequently a
+    dispatch JobQueue.* -> AsyncHpcSubmitter.* is feasible only on call chains that passed
+    through a method of HpcSubmitter. Raises AnalysisError when the confinement cannot be shown."""
+    ix = ctx.ix
+    ahs = ix.find_class("AsyncHpcSubmitter")
+    hs = ix.find_class("HpcSubmitter")
+    jq = ix.find_class("JobQueue")
+    facts = []
+    # 1. construction sites of AsyncHpcSubmitter
+    ctor_fns = set()
+    for fn in ix.all_functions():
+        for s in ctx.cg.sites_in(fn):
+            is_ctor = s.constructs == ahs.qual or (
+                fn.cls is ahs and isinstance(s.node.func, ast.Name) and s.node.func.id == "cls" and fn.kind == "classmethod"
+            )
+            if is_ctor:
+                if fn.cls not in (hs, ahs):
+                    raise AnalysisError("confinement", f"{fn.loc(s.node)}: AsyncHpcSubmitter constructed outside HpcSubmitter ({fn.short})")
+                ctor_fns.add(fn.short)
+    facts.append(f"AsyncHpcSubmitter constructed only in {sorted(ctor_fns)}")
+    # 2. callers of those factory functions are HpcSubmitter methods
+    for short in ctor_fns:
+        f = ix.find_func(short)
+        for s in ctx.callers_of(f):
+            if s.fn.cls not in (hs, ahs):
+                raise AnalysisError("confinement", f"{s.loc}: {short} called outside HpcSubmitter ({s.fn.short})")
+    # 3. JobQueue locals of HpcSubmitter methods do not escape the class
+    for m in hs.methods.values():
+        names = set()
+        for s in ctx.cg.sites_in(m):
+            if s.constructs == jq.qual:
+                st = ctx.stmt_of(m, s.node)
+                if isinstance(st, ast.Assign) and len(st.targets) == 1 and isinstance(st.targets[0], ast.Name) and st.value is s.node:
+                    names.add(st.targets[0].id)
+                else:
+                    raise AnalysisError("confinement", f"{s.loc}: JobQueue constructed in HpcSubmitter but not bound to a plain local")
+        for p in m.params:
+            t = ctx.ty.env(m).get(p)
+            if type_is(ctx, t, "JobQueue"):
+                names.add(p)
+        for q in names:
+            for n in iter_own(m.node):
+                if isinstance(n, ast.Name) and n.id == q and isinstance(n.ctx, ast.Load):
+                    par = ctx.parents(m).get(id(n))
+                    if isinstance(par, ast.Attribute) and par.value is n:
+                        continue  # receiver of a JobQueue method / attribute
+                    if isinstance(par, ast.Call) and n in par.args:
+                        cs = ctx.cg.site_of(m, par)
+                        if cs is not None and cs.callees and all(ix.functions[c].cls is hs for c in cs.callees if c in ix.functions):
+                            continue
+                    raise AnalysisError("confinement", f"{m.loc(n)}: HPC-level JobQueue `{q}` escapes {m.short}")
+    facts.append("JobQueue objects of HpcSubmitter are locals/parameters confined to HpcSubmitter methods")
+    return facts
+
+
+def gated_sites(ctx, entry_fn, effect, gate_accept, kinds=ALL_KINDS):
+    """All (fn, site) on entry->effect chains that carry an accepted gate (for evidence)."""
+    out, seen = [], set()
+
+    def visit(fn):
+        if fn.qual in seen:
+            return
+        seen.add(fn.qual)
+        for s in ctx.cg.sites_in(fn):
+            if effect not in ctx.site_may(s):
+                continue
+            nodes = ctx.nodes_of(fn, s.node, kinds)
+            if nodes and all(any(gate_accept(f, p) for f, p in guard_forms(ctx, fn, n, kinds)) for n in nodes):
+                out.append((fn, s))
+                continue
+            for q in s.targets():
+                f2 = ctx.ix.functions.get(q)
+                if f2 is not None:
+                    visit(f2)
+
+    visit(entry_fn)
+    return out
